@@ -358,7 +358,15 @@ impl Check for C01 {
             w.run_until(ch, t);
         }
         w.faults_on = false;
-        let t_conv = (2 * tau + 4 + 2 * n) * i_units;
+        // redundant paths: the node/segment graph has a cycle iff it has more edges (attached ports)
+        // than vertices - 1 (it is connected by construction)
+        let edges: usize = plan.nodes.iter().map(|nd| nd.ports.iter().filter(|p| p.segment.is_some()).count()).sum();
+        let has_cycle = edges > plan.nodes.len() + plan.n_segments - 1;
+        // A corrupted Announce of the noisy prelude can describe a grandmaster that does not exist;
+        // in a topology with redundant paths its data then circulate until stepsRemoved reaches 255
+        // (see below), so the first convergence gets the same allowance there.
+        let conv_extra: u128 = if self.noisy && has_cycle { 300 } else { 0 };
+        let t_conv = (2 * tau + 4 + 2 * n + conv_extra) * i_units;
         let hold = 20 * i_units;
         let step = i_units / 2;
         self.window(&mut w, ch, &st, t_conv, hold, step, "initial");
@@ -407,9 +415,9 @@ impl Check for C01 {
             }
         }
         // Without the path trace option IEEE 1588 lets the data of a vanished grandmaster circulate
-        // in a ring with stepsRemoved growing by one per hop until it reaches 255 (about two
-        // increments per announce interval), so topologies with redundant paths get that much longer.
-        let ring_extra: u128 = if plan.has_ring || plan.has_dual { 160 } else { 0 };
+        // in a ring with stepsRemoved growing by one per hop - at worst one hop per announce interval -
+        // until it reaches 255, so topologies with redundant paths get 300 intervals more.
+        let ring_extra: u128 = if has_cycle || plan.has_ring || plan.has_dual { 300 } else { 0 };
         let t_reconv = (4 + 2 * tau + 2 * n + ring_extra) * i_units;
         let mut fault_desc = Vec::new();
         for f in script {
